@@ -61,8 +61,23 @@ def rule_g1(repo):
 def rule_g2(repo):
     res = RuleResult('C17.G2', 'an application equation f(a1, a2) = a never gets lost: it is made pending, or stays registered in lookup and in the use lists of both arguments', floor=3)
     # --- _propagate: each equation of the absorbed class goes to pending or to lookup + use list of the new representative
-    f = repo.func(CONGC, 'CongClosure._propagate')
-    loops = [n for n in walk_no_nested(f.node, include_root=False) if isinstance(n, ast.For) and 'use_list' in src(n.iter)]
+    cls = repo.module(CONGC).classes['CongClosure']
+
+    def with_helpers(fn):
+        """the method and the methods of the class it calls on self (a step of it may have been extracted)"""
+        g = repo.func(CONGC, 'CongClosure.' + fn)
+        out = [g]
+        for c in ast.walk(g.node):
+            if isinstance(c, ast.Call) and isinstance(c.func, ast.Attribute) and is_name(c.func.value, 'self') and c.func.attr in cls.methods and \
+                    c.func.attr not in ('merge', '_propagate', '_add_edge_proof_forest', '_path_to_root') and cls.methods[c.func.attr] not in out:
+                out.append(cls.methods[c.func.attr])
+        return out
+    f, loops = None, []
+    for cand in with_helpers('_propagate'):
+        ls = [n for n in walk_no_nested(cand.node, include_root=False) if isinstance(n, ast.For) and 'use_list' in src(n.iter)]
+        if ls:
+            f, loops = cand, ls
+            break
     need(loops, '_propagate: loop over the use list not found')
     lp = loops[0]
     cfg = cfg_of(f.node)
@@ -79,9 +94,13 @@ def rule_g2(repo):
             'an equation of the absorbed class can be dropped: a later merge of its arguments is not propagated to its value', '%s:%d' % (CONGC, lp.lineno))
     # lookup store and use-list append go together
     for fn in ('CongClosure._propagate', 'CongClosure.merge'):
-        g = repo.func(CONGC, fn)
-        gcfg = cfg_of(g.node)
-        lk = [n for n in gcfg.stmt_nodes(ast.Assign) if any(isinstance(t, ast.Subscript) and path_of(t.value) == 'self.lookup' for t in n.ast.targets)]
+        g, lk = None, []
+        for cand in with_helpers(fn.split('.')[1]):
+            gcfg = cfg_of(cand.node)
+            lk = [n for n in gcfg.stmt_nodes(ast.Assign) if any(isinstance(t, ast.Subscript) and path_of(t.value) == 'self.lookup' for t in n.ast.targets)]
+            if lk:
+                g = cand
+                break
         need(lk, '%s: store into self.lookup not found' % fn)
         for n in lk:
             apps = [m for m in gcfg.nodes if m.kind == 'stmt' and any('use_list' in src(c.func.value) for c in _calls(m.ast, 'append'))]
